@@ -1207,7 +1207,7 @@ void runC20(Ctx &c)
                 c.require("C20.batch_equals_pointwise", ok, key);
             }
             // reported length = left-endpoint Riemann sum of speed over the sequence
-            if (seq.size() <= 20000)
+            if (seq.size() <= 200000)
             {
                 LD ref = 0, refabs = 0;
                 for (size_t q = 0; q + 1 < seq.size(); ++q)
@@ -1226,7 +1226,9 @@ void runC20(Ctx &c)
                 }
                 double L = pp->length(a, b, dt);
                 double rel = (refabs > 0) ? (double)(fabsl((LD)L - ref) / refabs) : (L == 0 ? 0 : INFINITY);
-                c.check("C20.length_is_left_riemann_sum", rel, 1e-11, key);
+                // rounding of the library's own running sum grows with the number of terms
+                const double tolL = 1e-11 * std::max(1.0, (double)seq.size() / 1000.0);
+                c.check("C20.length_is_left_riemann_sum", rel / tolL, 1.0, key);
                 if (icls == 0)
                 {
                     c.require("C20.length_whole_range_overload", bitEqual(pp->lengthAll(dt), L), key);
